@@ -92,25 +92,51 @@ let outcomes_s (os : soutcome list list) : str =
        Printf.sprintf "%d:%s" g
          (match l with [] -> "~" | _ -> String.concat "/" (List.map soutcome_s l))) os)
 
+(* Replay at the level of CRITICAL SECTIONS. The observed trace keeps its four lock operations per goroutine; what the
+   library does to the file system inside a section (which os / io / bufio calls, how many) is not compared: when a goroutine
+   releases a lock the model is first advanced through all the file-system events it has pending for that goroutine (under the
+   write lock nothing can interleave with them, under the read lock they are reads, which commute). A file-system operation
+   observed OUTSIDE any section of its goroutine is a protocol violation ("unprotected"): that is the F4 defect and the shape
+   of every lock-narrowing mutation. *)
 let replay proto (c0 : cfg) (evs : (int * str) list) : cfg =
   let c = ref c0 in
-  List.iteri (fun i (g, kind) ->
-    let where = Printf.sprintf "i=%d:g=%d" i g in
+  let n = List.length !c.g_threads in
+  let held = Array.make (max n 1) 0 in           (* 0 none, 1 read, 2 write *)
+  let step_one where g kind_wanted =
     match List.nth_opt !c.g_threads g with
     | None -> raise (Sched_fail ("nogoroutine:" ^ where))
     | Some t ->
       (match next_ev t with
-       | None -> raise (Sched_fail (Printf.sprintf "finished:%s:got=%s" where kind))
+       | None -> raise (Sched_fail (Printf.sprintf "finished:%s:got=%s" where kind_wanted))
        | Some e ->
          let expected = kind_of_ev e in
-         if expected <> kind then
-           raise (Sched_fail (Printf.sprintf "mismatch:%s:expected=%s:got=%s" where expected kind));
+         if kind_wanted <> "" && expected <> kind_wanted then
+           raise (Sched_fail (Printf.sprintf "mismatch:%s:expected=%s:got=%s" where expected kind_wanted));
          let gn = nat_of_int g in
          if not (enabled !c.g_sh gn e) then
-           raise (Sched_fail (Printf.sprintf "blocked:%s:kind=%s" where kind));
+           raise (Sched_fail (Printf.sprintf "blocked:%s:kind=%s" where expected));
          (match sched_step proto !c gn with
           | Some c' -> c := c'
-          | None -> raise (Sched_fail (Printf.sprintf "blocked:%s:kind=%s" where kind)))))
+          | None -> raise (Sched_fail (Printf.sprintf "blocked:%s:kind=%s" where expected)))) in
+  let is_lock_kind k = (k = "RLock" || k = "RUnlock" || k = "Lock" || k = "Unlock") in
+  (* advance g through its pending file-system events (everything before its next lock operation) *)
+  let rec drain where g =
+    match List.nth_opt !c.g_threads g with
+    | Some t ->
+      (match next_ev t with
+       | Some e when not (is_lock_kind (kind_of_ev e)) -> step_one where g ""; drain where g
+       | _ -> ())
+    | None -> () in
+  List.iteri (fun i (g, kind) ->
+    let where = Printf.sprintf "i=%d:g=%d" i g in
+    if g >= n then raise (Sched_fail ("nogoroutine:" ^ where));
+    match kind with
+    | "RLock" -> step_one where g "RLock"; held.(g) <- 1
+    | "Lock" -> step_one where g "Lock"; held.(g) <- 2
+    | "RUnlock" -> drain where g; step_one where g "RUnlock"; held.(g) <- 0
+    | "Unlock" -> drain where g; step_one where g "Unlock"; held.(g) <- 0
+    | _ ->
+      if held.(g) = 0 then raise (Sched_fail (Printf.sprintf "unprotected:%s:kind=%s" where kind)))
     evs;
   !c
 
